@@ -108,6 +108,7 @@ def gen_sequence(r, scopes, desc):
     busy = 0.0
     running_total = 0
     n_exc = desc["exceptions"]
+    fail_tail = n_exc >= 150 and r.random() < 0.7  # every call fails: the run ends with failures beyond the 128-exception cap
     for section in sections:
         use = scopes if section == "run" else scopes[: max(1, len(scopes) // 2)]
         totals = {sc: r.randint(1, 6) if n_exc < 100 else r.randint(20, 60) for sc in use}
@@ -136,7 +137,7 @@ def gen_sequence(r, scopes, desc):
                 left_open = r.random() < 0.03
                 if left_open:
                     continue  # BaseException in the call: running never closed (legal per C15's proviso); thread moves on
-                kind = "failed" if (n_exc > 0 or r.random() < 0.1) and r.random() < 0.5 else "completed"
+                kind = "failed" if (n_exc > 0 or r.random() < 0.1) and (r.random() < 0.5 or fail_tail) else "completed"
                 if kind == "failed":
                     n_exc = max(0, n_exc - 1)
                 events.append((th, kind, section, sc, None, dtm))
@@ -162,9 +163,9 @@ def gen_sequence(r, scopes, desc):
             final[key]["running"] -= 1
             final[key][op] += 1
     tail = r.choice([0.0, 2.0])
-    if sum(running.values()) > 0:
-        busy += tail
-    return seq, final, busy, tail
+    tail_contrib = tail if sum(running.values()) > 0 else 0.0
+    busy += tail_contrib
+    return seq, final, busy, tail, tail_contrib
 
 
 NUM = re.compile(r"^\s*(?:\((\d+) \+ (\d+)\)|(\d+)) / (\d+)(?:, (?:<span[^>]*>)?(\d+) failed(?:</span>)?)?\s*$")
@@ -197,7 +198,7 @@ def run_case(desc):
 
     r = random.Random(desc["seed"])
     scopes = make_scopes(r, desc)
-    seq, final, busy, tail = gen_sequence(r, scopes, desc)
+    seq, final, busy, tail, tail_contrib = gen_sequence(r, scopes, desc)
     clock = VClock()
     old_time = spo.time
     spo.time = clock
@@ -211,7 +212,8 @@ def run_case(desc):
     bad = None
     kind = desc["observer"]
     threaded = desc["mode"] == "threaded"
-    iv = dict(initial_update_delay=0.0003, min_update_interval=0.0003, max_update_interval=0.001) if threaded else \
+    # max_update_interval is compared against the (virtual) clock: huge, so that only staleness triggers a rendering
+    iv = dict(initial_update_delay=0.0003, min_update_interval=0.0003, max_update_interval=1e12) if threaded else \
         dict(initial_update_delay=1000, min_update_interval=1000, max_update_interval=1000)
     try:
         if kind == "console":
@@ -366,7 +368,10 @@ def run_case(desc):
         # ---- elapsed attribution
         if bad is None:
             tot = sum(ss.weighted_elapsed for m in obs._state.section_scope_mapping.values() for ss in m.values())
-            if abs(tot - busy) > 1e-6 * max(1.0, busy):
+            # threaded mode: the last update of the attribution happened either before or after the final (atomic) advance
+            # of the virtual clock, depending on whether a rendering was still due; direct mode renders after it.
+            ok = abs(tot - busy) <= 1e-6 * max(1.0, busy) or (threaded and abs(tot - (busy - tail_contrib)) <= 1e-6 * max(1.0, busy))
+            if not ok:
                 bad = f"elapsed time attributed to scopes sums to {tot:.6f}s but >= 1 call was running for {busy:.6f}s (virtual clock)"
     finally:
         sys.stdout = old_stdout
